@@ -182,12 +182,16 @@ func (tm *TypeMap) KeySort(key string, cs *ContractSet) *Sort {
 		}
 		return SArray(SInt, parseSort(rest))
 	case strings.HasPrefix(key, "MD:"):
-		return SArray(SInt, SArray(parseSort(key[3:]), SBool))
+		// MD:<k>:<maptype> -- sorts contain no ':'
+		parts := strings.SplitN(key[3:], ":", 2)
+		return SArray(SInt, SArray(parseSort(parts[0]), SBool))
 	case strings.HasPrefix(key, "MV:"):
-		// MV:<k>:<v> -- sorts contain no ':'
-		rest := key[3:]
-		i := strings.Index(rest, ":")
-		return SArray(SInt, SArray(parseSort(rest[:i]), parseSort(rest[i+1:])))
+		// MV:<k>:<v>:<maptype>
+		parts := strings.SplitN(key[3:], ":", 3)
+		if len(parts) < 2 {
+			return nil
+		}
+		return SArray(SInt, SArray(parseSort(parts[0]), parseSort(parts[1])))
 	case key == MapCardKey:
 		return SArray(SInt, SInt)
 	case strings.HasPrefix(key, "G:"):
@@ -227,11 +231,17 @@ func ElemKey(s *Sort) string { return "E:" + sortKey(s) }
 func (tm *TypeMap) MemKey(t types.Type) string {
 	return "M:" + sortKey(tm.SortOf(t)) + ":" + typeKey(t)
 }
-func MapDomKey(k *Sort) string {
-	return "MD:" + sortKey(k)
+// Map contents are partitioned by the (underlying) Go map type: a map value
+// is only ever accessed through expressions of that type.
+func mapTypeKey(mt *types.Map) string {
+	s := types.TypeString(mt, func(p *types.Package) string { return relPkg(p.Path()) })
+	return strings.ReplaceAll(s, ":", "_")
 }
-func MapValKey(k, v *Sort) string {
-	return "MV:" + sortKey(k) + ":" + sortKey(v)
+func MapDomKey(k *Sort, mt *types.Map) string {
+	return "MD:" + sortKey(k) + ":" + mapTypeKey(mt)
+}
+func MapValKey(k, v *Sort, mt *types.Map) string {
+	return "MV:" + sortKey(k) + ":" + sortKey(v) + ":" + mapTypeKey(mt)
 }
 
 const MapCardKey = "MC"
